@@ -232,9 +232,8 @@ func multisetDiff(a, b []string) (lost, gained []string) {
 	return
 }
 
-var rangeRe = regexp.MustCompile(`\*\s*(\d*)\s*(\.\.)?\s*(\d*)`)
-
-// rangeLiterals: the (start,end) pairs of every `[ … *a..b … ]` inside a relationship detail, in order.
+// rangeLiterals: the (start, dots, end) of every `*a..b` directly inside a relationship detail `-[ … ]-` (not inside its
+// property map or any nested bracket), in order.
 func rangeLiterals(text string) []string {
 	var out []string
 	toks := []antlr.Token{}
@@ -249,33 +248,44 @@ func rangeLiterals(text string) []string {
 			toks = append(toks, t)
 		}
 	}
-	depth := 0
-	for i := 0; i < len(toks); i++ {
-		switch toks[i].GetText() {
-		case "[":
-			depth++
-		case "]":
-			depth--
-		case "*":
-			// a range only directly inside `-[ … ]-`: previous structural token is '[' , an identifier, a kind or '|'
-			if depth > 0 && i > 0 && (toks[i-1].GetText() == "[" || toks[i-1].GetTokenType() == parser.CypherLexerUnescapedSymbolicName ||
-				toks[i-1].GetTokenType() == parser.CypherLexerEscapedSymbolicName) && i >= 2 && isPatternOpen(toks, i) {
+	txt := func(i int) string {
+		x := toks[i].GetText()
+		if c07Dashes[x] {
+			return "-"
+		}
+		return x
+	}
+	for i := 1; i < len(toks); i++ {
+		if txt(i) != "[" || txt(i-1) != "-" {
+			continue
+		}
+		// inside one relationship detail: nesting relative to this '['
+		depth := 0
+		j := i + 1
+		for ; j < len(toks); j++ {
+			x := txt(j)
+			if x == "[" || x == "{" || x == "(" {
+				depth++
+			} else if x == "}" || x == ")" {
+				depth--
+			} else if x == "]" {
+				if depth == 0 {
+					break
+				}
+				depth--
+			} else if x == "*" && depth == 0 {
 				a, b, dots := "", "", false
-				j := i + 1
-				if j < len(toks) && isDigits(toks[j].GetText()) {
-					a = toks[j].GetText()
-					j++
+				k := j + 1
+				if k < len(toks) && isDigits(toks[k].GetText()) {
+					a = toks[k].GetText()
+					k++
 				}
-				if j < len(toks) && toks[j].GetText() == ".." {
+				if k < len(toks) && toks[k].GetText() == ".." {
 					dots = true
-					j++
-					if j < len(toks) && isDigits(toks[j].GetText()) {
-						b = toks[j].GetText()
+					k++
+					if k < len(toks) && isDigits(toks[k].GetText()) {
+						b = toks[k].GetText()
 					}
-				}
-				if !dots {
-					b = a // *n means exactly n … but the model stores only StartIndex; keep the textual reading: (a, none)
-					b = ""
 				}
 				if a == "" && b == "" {
 					dots = false
@@ -283,25 +293,9 @@ func rangeLiterals(text string) []string {
 				out = append(out, fmt.Sprintf("%s/%v/%s", a, dots, b))
 			}
 		}
+		i = j
 	}
 	return out
-}
-
-// isPatternOpen: the '[' enclosing position i is preceded by a dash (relationship detail, not a list).
-func isPatternOpen(toks []antlr.Token, i int) bool {
-	depth := 0
-	for j := i - 1; j >= 0; j-- {
-		switch toks[j].GetText() {
-		case "]":
-			depth++
-		case "[":
-			if depth == 0 {
-				return j > 0 && (toks[j-1].GetText() == "-" || toks[j-1].GetTokenType() == parser.CypherLexerT__19)
-			}
-			depth--
-		}
-	}
-	return false
 }
 
 // ---------------------------------------------------------------------------------- runner
